@@ -1760,7 +1760,7 @@ impl<'a, E: quiver_core::effects::Effect> Compiler<'a, E> {
             module_cache: &mut *self.module_cache,
             package: &self.current_package,
         };
-        let (bindings, binding_sets, result_type) = pattern::analyze_pattern(
+        let (bindings, binding_sets, result_type, matched_type) = pattern::analyze_pattern(
             &mut env,
             self.program,
             &pattern,
@@ -1902,8 +1902,11 @@ impl<'a, E: quiver_core::effects::Effect> Compiler<'a, E> {
                     self.program,
                 );
             } else {
-                // Standard whole-value narrowing
-                n.record(&value_provenance, value_type, result_type, self.program);
+                // Standard whole-value narrowing. Record what the pattern actually matches, not
+                // `result_type`: the nil it is widened with when the match can fail is the
+                // failure value, and subtracting it would tell later branches that the
+                // scrutinee cannot be nil even though this pattern never matched a nil.
+                n.record(&value_provenance, value_type, matched_type, self.program);
             }
         }
 
